@@ -77,6 +77,13 @@ class Evaluator:
                 base = self.env[e.value.id]
                 if hasattr(base, "__dict__") and not isinstance(base, type) and e.attr in vars(base):
                     return vars(base)[e.attr]
+                if hasattr(base, "__cls__"):
+                    # an object of the rule's object model: class attributes and properties come from *its* class
+                    ga = getattr(self.call_hook, "getattr", None)
+                    if ga is not None:
+                        r = ga(base, e.attr)
+                        if r is not NotImplemented:
+                            return r
             try:
                 return self.prog.const_eval(e, self.module, self.cls)
             except Unknown:
